@@ -18,7 +18,7 @@ func VT_C11_BusConcurrentSends() {
 	_ = b.Listen(ctx0)
 	cancel0() // cancelled before anything is sent: the first Send to finish collects it
 	ctx, cancel := context.WithCancel(context.Background())
-	nl := vt.Bound("liveListeners", 1, 2)
+	nl := vt.Bound("liveListeners", 1, 1)
 	got := make([][]int, nl)
 	var consumers sync.WaitGroup
 	for i := 0; i < nl; i++ {
